@@ -9,6 +9,9 @@ LLSE_NOTE = ('Trusted base: rustc/LLVM up to the emitted IR (the IR is what is c
              'Verdicts hold within the stated structural bounds only; see evidence coverage.bounds / outside_claim.')
 
 CLAIMED = {
+ 'C20': dict(
+    text='Bounded symbolic model checking of the compiled code: HtmlWriter (write_all in two writes at every split point, every colour state) and HtmlFormatter::format (every FormatType) are executed on texts whose bytes are symbolic ASCII values; on every feasible path the output must equal the renderer\'s own span wrapper around the escaped input and contain no other `<` / `>`. Exhaustive over all ASCII strings up to the stated length, which is the right level because escaping is per byte and the defect class is one unescaped metacharacter at one position or a wrong byte count returned to write_all.',
+    design_ref='DESIGN.md §4 C20', technique='symbolic execution of LLVM IR + SMT (z3 QF_BV), replay-mode path exploration, native replay'),
  'C12': dict(
     text='Bounded symbolic model checking of the compiled code: for each selected pair of same-dimension units the real VM Add/Subtract opcodes (impl Add/Sub for &Quantity, smaller_unit, convert_to, zero shortcuts) are executed symbolically for a+b, b+a, a-b, b-a with both magnitudes ranging over all doubles; when the units differ in size and not both operands are zero the two orders must give bit-identical magnitudes and structurally identical units (negated for subtraction); otherwise they must denote the same quantity. Each clause is discharged by the solver on every feasible path or refuted with a natively replayed model.',
     design_ref='DESIGN.md §4 C12', technique='symbolic execution of LLVM IR + SMT (z3 QF_FPBV), native replay'),
